@@ -59,6 +59,7 @@ VARIANTS = {
     "asan": ([], "-O1 -g -fsanitize=address,undefined -fno-sanitize-recover=all -fno-omit-frame-pointer",
              "clang", "-fsanitize=address,undefined"),
     "tsan": ([], "-O1 -g -fsanitize=thread", "clang", "-fsanitize=thread"),
+    "tsan-extra": ([], "-O1 -g -fsanitize=thread -DEAV_EXTRA", "clang", "-fsanitize=thread"),
     "extra": ([], "-O2 -DEAV_EXTRA", "cc", ""),
     "debug": ([], "-O0 -g", "cc", ""),
     "uchar": ([], "-O2 -funsigned-char", "cc", ""),      # plain char unsigned, as on ARM / PowerPC
@@ -72,12 +73,13 @@ def optname(ob):
     return "opt%d" % ob
 
 
-def build(ctx, variant="default", optbits=0, backend="idn2", targets=("static",)):
-    """copy /repo's working tree to scratch and build it with the repository's own Makefile"""
-    key = (variant, optbits, backend, targets)
+def build(ctx, variant="default", optbits=0, backend="idn2", targets=("static",), opts_via_env=False):
+    """copy /repo's working tree to scratch and build it with the repository's own Makefile (opts_via_env: the documented options
+    are exported in the environment instead of being given on the make command line - the README allows both)"""
+    key = (variant, optbits, backend, targets, opts_via_env)
     if key in ctx.builds:
         return ctx.builds[key]
-    name = "b-%s-%d-%s" % (variant, optbits, backend)
+    name = "b-%s-%d-%s%s" % (variant, optbits, backend, "-env" if opts_via_env else "")
     dst = ctx.path(name, "src")
     os.makedirs(dst, exist_ok=True)
     subprocess.run(["rsync", "-a", "--delete", "--exclude", ".git", "--exclude", "*.o", "--exclude", "*.a",
@@ -94,12 +96,13 @@ def build(ctx, variant="default", optbits=0, backend="idn2", targets=("static",)
         args = ["make", "-C", dst, "-j8"] + list(targets) + ["CC=" + cc, "CFLAGS=" + base_cflags]
     if ldflags:
         args.append("LDFLAGS=" + ldflags)
-    if optbits & 1:
-        args.append("RFC6531_FOLLOW_RFC20=ON")
-    if optbits & 2:
-        args.append("RFC6531_FOLLOW_RFC5322=ON")
-    if optbits & 4:
-        args.append("LABELS_ALLOW_UNDERSCORE=ON")
+    menv = dict(os.environ)
+    for bit, oname in ((1, "RFC6531_FOLLOW_RFC20"), (2, "RFC6531_FOLLOW_RFC5322"), (4, "LABELS_ALLOW_UNDERSCORE")):
+        if optbits & bit:
+            if opts_via_env:
+                menv[oname] = "ON"
+            else:
+                args.append(oname + "=ON")
     libs = ["-lidn2"]
     extra_inc = []
     if backend != "idn2":
@@ -107,7 +110,7 @@ def build(ctx, variant="default", optbits=0, backend="idn2", targets=("static",)
         define = "-DHAVE_LIBIDN" if backend == "idn" else "-DHAVE_IDNKIT"
         args += ["FORCE_IDN=" + backend, "DEFS=%s -I%s" % (define, adir), "LIBS=", "LIBS_STATIC="]
         extra_inc = [define, "-I" + adir]
-    r = subprocess.run(args, stdout=subprocess.PIPE, stderr=subprocess.STDOUT, text=True)
+    r = subprocess.run(args, stdout=subprocess.PIPE, stderr=subprocess.STDOUT, text=True, env=menv)
     if r.returncode != 0:
         raise Infra("build of /repo working tree failed (%s):\n%s" % (name, r.stdout[-3000:]))
     b = {"name": name, "dir": dst, "lib": os.path.join(dst, "libeav.a"), "cc": cc, "cflags": base_cflags,
